@@ -28,6 +28,7 @@ def parseOp (j : Json) : Except String Op := do
   | "replaceList" => return .replaceList (← ints (← j.getObjVal? "os"))
   | "replaceDict" => return .replaceDict (← pairs (← j.getObjVal? "kvs"))
   | "assign" => return .assign (← getInt j "v")
+  | "inherited" => return .inherited
   | o => throw s!"unknown op {o}"
 
 def parsePayload (j : Json) : Except String Payload := do
@@ -72,7 +73,7 @@ def opName : Op → String
   | .setIdx .. => "setIdx" | .setKey .. => "setKey" | .append .. => "append" | .insert .. => "insert"
   | .extend .. => "extend" | .update .. => "update" | .popIdx .. => "popIdx" | .popKey .. => "popKey" | .popKeyD .. => "popKeyD"
   | .remove .. => "remove" | .clear => "clear" | .replaceList .. => "replaceList"
-  | .replaceDict .. => "replaceDict" | .assign .. => "assign"
+  | .replaceDict .. => "replaceDict" | .assign .. => "assign" | .inherited => "inherited"
 
 def handle (req : Json) : Except String Json := do
   let case ← req.getObjVal? "case"
